@@ -123,7 +123,7 @@ impl Stmt {
     fn body_x(&self) -> Vec<X> {
         let then = |a: &str| X::container(Ns::Xnm, "then").kid(X::new(Ns::Xnm, a));
         let term = X::container(Ns::Xnm, "term")
-            .kid(X::leaf(Ns::Xnm, "name", "t1"))
+            .kid(X::new(Ns::Xnm, "name").text("t1"))
             .kid(then("accept"));
         match &self.body {
             Body::Reject => vec![then("reject")],
@@ -151,7 +151,7 @@ impl Stmt {
         if let Some(g) = &self.extra_attr {
             ps = ps.nsattr(Ns::Junos, "group", g);
         }
-        ps = ps.kid(X::leaf(Ns::Xnm, "name", &self.name));
+        ps = ps.kid(X::new(Ns::Xnm, "name").text(&self.name));
         for b in self.body_x() {
             ps = ps.kid(b);
         }
@@ -215,9 +215,9 @@ pub fn running_x(stmts: &[Stmt]) -> X {
     for s in stmts {
         po = po.kid(s.to_x());
     }
-    if !stmts.is_empty() {
-        cfg = cfg.kid(po);
-    }
+    // (an empty <policy-options> container is what the subtree filter leaves when no statement
+    // exists)
+    cfg = cfg.kid(po);
     cfg
 }
 
